@@ -266,6 +266,24 @@ func (rl *runLoop) inLoop(i ssa.Instruction) bool {
 	return rl.loop == nil || rl.loop.body[i.Block()]
 }
 
+// precedes: like before, but an instruction inside a loop that does not contain b counts as preceding b when the loop as a
+// whole does (its header dominates b): "the patterns are expanded in a loop before the run loop starts".
+func (c *Ctx) precedes(a, b ssa.Instruction) bool {
+	if before(a, b) {
+		return true
+	}
+	if a.Parent() != b.Parent() {
+		return false
+	}
+	fi := c.info(a.Parent())
+	for _, l := range fi.loopsContaining(a.Block()) {
+		if !l.body[b.Block()] && dominates(l.header, b.Block()) {
+			return true
+		}
+	}
+	return false
+}
+
 // before: instruction a is executed before b on every path that reaches b (same block earlier, or a's block dominates b's).
 func before(a, b ssa.Instruction) bool {
 	if a.Block() == b.Block() {
@@ -278,7 +296,7 @@ func before(a, b ssa.Instruction) bool {
 			}
 		}
 	}
-	return a.Block().Dominates(b.Block())
+	return dominates(a.Block(), b.Block())
 }
 
 // findK collects the "reported as skipped" events: stores of a possibly-true value into task.Result.Skipped.
@@ -695,19 +713,15 @@ func (rl *runLoop) invalidationBeforeX(assumeForce *bool) invalidation {
 	for _, d := range rl.D {
 		isD[d] = true
 	}
-	type state struct {
-		b, prev *ssa.BasicBlock
-		s, d    bool
-	}
-	seen := map[state]bool{}
+	seen := map[string]bool{}
 	var bad []string
-	var dfs func(b, prev *ssa.BasicBlock, s, d bool, path []string) bool
-	dfs = func(b, prev *ssa.BasicBlock, s, d bool, path []string) bool {
-		st := state{b, prev, s, d}
-		if seen[st] {
+	var dfs func(b *ssa.BasicBlock, s, d bool, ps *pathState, path []string) bool
+	dfs = func(b *ssa.BasicBlock, s, d bool, ps *pathState, path []string) bool {
+		k := fmt.Sprintf("%d|%v|%v|%s", b.Index, s, d, ps.key())
+		if seen[k] {
 			return true
 		}
-		seen[st] = true
+		seen[k] = true
 		path = append(path, fmt.Sprintf("block %d (%s)", b.Index, c.bpos(b)))
 		for _, in := range b.Instrs {
 			if in == ssa.Instruction(rl.X) {
@@ -724,16 +738,15 @@ func (rl *runLoop) invalidationBeforeX(assumeForce *bool) invalidation {
 				d = true
 			}
 		}
-		iff, _ := lastInstr(b).(*ssa.If)
 		for i, nx := range rl.reg.succs(b) {
 			if nx == nil {
 				continue
 			}
-			if iff != nil {
-				cond, pol, feasible := branchCond(b, prev, i)
-				if !feasible {
-					continue
-				}
+			cond, pol, next, feasible := ps.branch(b, i)
+			if !feasible {
+				continue
+			}
+			if cond != nil {
 				if emptyWhenTrue, ok := rl.emptyDigestTest(cond); ok && emptyWhenTrue == pol {
 					continue // cached digest is empty on this edge: nothing on disk to forget
 				}
@@ -741,14 +754,14 @@ func (rl *runLoop) invalidationBeforeX(assumeForce *bool) invalidation {
 					continue
 				}
 			}
-			if !dfs(nx, b, s, d, path) {
+			if !dfs(nx, s, d, next.enter(nx, b), path) {
 				return false
 			}
 		}
 		return true
 	}
 	start := rl.reg.entry
-	if dfs(start, nil, false, false, nil) {
+	if dfs(start, false, false, newPathState(), nil) {
 		if len(s0) == 0 {
 			return invalidation{false, "no cache update with a constant value (or delete) for the iterated task before the commands run", nil, nil}
 		}
@@ -813,22 +826,17 @@ func (rl *runLoop) successPersisted(assumeForce *bool) cp3Result {
 			xerr = ex
 		}
 	}
-	type state struct {
-		b, prev  *ssa.BasicBlock
-		s, cross bool
-		assume   string
-	}
-	seen := map[state]bool{}
+	seen := map[string]bool{}
 	var bad []string
 	why := ""
-	var dfs func(b, prev *ssa.BasicBlock, from int, s, cross bool, assume map[string]bool, path []string) bool
-	dfs = func(b, prev *ssa.BasicBlock, from int, s, cross bool, assume map[string]bool, path []string) bool {
+	var dfs func(b *ssa.BasicBlock, from int, s, cross bool, ps *pathState, path []string) bool
+	dfs = func(b *ssa.BasicBlock, from int, s, cross bool, ps *pathState, path []string) bool {
 		if from == 0 {
-			st := state{b, prev, s, cross, assumeKey(assume)}
-			if seen[st] {
+			k := fmt.Sprintf("%d|%v|%v|%s", b.Index, s, cross, ps.key())
+			if seen[k] {
 				return true
 			}
-			seen[st] = true
+			seen[k] = true
 		}
 		path = append(path, fmt.Sprintf("block %d (%s)", b.Index, c.bpos(b)))
 		for _, in := range b.Instrs[from:] {
@@ -849,15 +857,13 @@ func (rl *runLoop) successPersisted(assumeForce *bool) cp3Result {
 				return false
 			}
 		}
-		iff, _ := lastInstr(b).(*ssa.If)
 		for i, nx := range b.Succs {
-			as := assume
-			if iff != nil {
-				cond, pol, feasible := branchCond(b, prev, i)
-				if !feasible {
-					continue
-				}
-				if x, nonNilWhenTrue, ok := errNilTest(cond); ok && xerr != nil && x == xerr && nonNilWhenTrue == pol {
+			cond, pol, next, feasible := ps.branch(b, i)
+			if !feasible {
+				continue
+			}
+			if cond != nil {
+				if x, nonNilWhenTrue, ok := errNilTest(cond); ok && xerr != nil && ps.resolve(x) == xerr && nonNilWhenTrue == pol {
 					continue // X itself failed to start: not a success
 				}
 				if own, ok := rl.okTest(cond); ok && own && !pol && !cross {
@@ -869,20 +875,6 @@ func (rl *runLoop) successPersisted(assumeForce *bool) cp3Result {
 				if assumeForce != nil && rl.force != nil && cond == ssa.Value(rl.force) && pol != *assumeForce {
 					continue
 				}
-				k, kpol := condKey(cond, pol)
-				if k != "" {
-					if v, ok := assume[k]; ok {
-						if v != kpol {
-							continue // contradicts an earlier branch on the same condition
-						}
-					} else {
-						as = map[string]bool{}
-						for kk, vv := range assume {
-							as[kk] = vv
-						}
-						as[k] = kpol
-					}
-				}
 			}
 			ncross := cross
 			if rl.loop != nil && nx == rl.loop.header && rl.loop.body[b] {
@@ -891,7 +883,7 @@ func (rl *runLoop) successPersisted(assumeForce *bool) cp3Result {
 			if rl.loop != nil && !rl.loop.body[nx] {
 				ncross = true
 			}
-			if !dfs(nx, b, 0, s, ncross, as, path) {
+			if !dfs(nx, 0, s, ncross, next.enter(nx, b), path) {
 				return false
 			}
 		}
@@ -904,8 +896,7 @@ func (rl *runLoop) successPersisted(assumeForce *bool) cp3Result {
 			idx = i + 1
 		}
 	}
-	init := map[string]bool{}
-	if dfs(rl.X.Block(), nil, idx, initS, false, init, nil) {
+	if dfs(rl.X.Block(), idx, initS, false, newPathState(), nil) {
 		return cp3Result{ok: true}
 	}
 	return cp3Result{false, bad, why}
@@ -1341,48 +1332,58 @@ func ruleCP6(c *Ctx) *rule {
 			r.bad(key, c.ipos(h), "no lookup SpokFile.Globs[<element of GlobDependencies>] reaches the hashed list")
 		}
 	}
-	// expansion precedes the loop
-	runM := c.method("file", "SpokFile", "Run")
-	var expandSites, loopSites []ssa.CallInstruction
-	for _, site := range callSites(runM) {
+	// expansion precedes the loop: in the function that holds the loop (helpers are inlined by the canonicaliser) or in
+	// file.(*SpokFile).Run on the way to it
+	isExpansion := func(site ssa.CallInstruction) bool {
+		if calleeName(site.Common()) == "github.com/bmatcuk/doublestar/v4.GlobWalk" {
+			return true
+		}
 		for _, callee := range c.callees(site) {
-			if !inModule(callee) {
-				continue
+			if inModule(callee) && c.reachesCallee(callee, "github.com/bmatcuk/doublestar/v4.GlobWalk") && c.storesField(callee, "file.SpokFile.Globs") {
+				return true
 			}
-			if c.reachesCallee(callee, "github.com/bmatcuk/doublestar/v4.GlobWalk") && c.storesField(callee, "file.SpokFile.Globs") {
-				expandSites = append(expandSites, site)
-			}
-			if callee == rl.fn || c.reachesFn(callee, rl.fn) {
-				loopSites = append(loopSites, site)
+		}
+		return false
+	}
+	runM := c.method("file", "SpokFile", "Run")
+	type target struct {
+		fn *ssa.Function
+		at ssa.Instruction
+	}
+	targets := []target{{rl.fn, rl.X}}
+	if rl.fn != runM {
+		for _, site := range callSites(runM) {
+			for _, callee := range c.callees(site) {
+				if callee == rl.fn || c.reachesFn(callee, rl.fn) {
+					targets = append(targets, target{runM, site})
+				}
 			}
 		}
 	}
-	if rl.fn == runM {
-		loopSites = append(loopSites, rl.X)
-	}
-	if len(loopSites) == 0 {
-		lost("file.(*SpokFile).Run does not reach the run loop")
-	}
-	for i, ls := range loopSites {
-		key := fmt.Sprintf("%s expand-before-run#%d", fname(runM), i+1)
-		var dom ssa.CallInstruction
-		for _, es := range expandSites {
-			if before(es, ls) {
+	key := fmt.Sprintf("%s expand-before-run", fname(runM))
+	var dom ssa.CallInstruction
+	for _, tg := range targets {
+		for _, es := range callSites(tg.fn) {
+			if isExpansion(es) && c.precedes(es, tg.at) {
 				dom = es
 			}
 		}
-		if dom == nil {
-			r.bad(key, c.ipos(ls), "no call that expands the glob patterns into SpokFile.Globs dominates the run loop: glob dependencies would hash as the empty list")
-			continue
+	}
+	if dom == nil {
+		r.bad(key, c.ipos(rl.X), "no glob expansion into SpokFile.Globs dominates the run loop: glob dependencies would hash as the empty list")
+	} else {
+		okErr := true
+		why := ""
+		if ev := errOfCall(dom); ev != nil {
+			okErr, why = c.errEdgeDischarged(ev)
+		} else if v, isV := dom.(ssa.Value); isV && (isErrorType(v.Type())) {
+			okErr, why = false, "its error is discarded"
 		}
-		// its error must be respected
-		if v, ok := dom.(ssa.Value); ok && isErrorType(v.Type()) {
-			if ok, why := c.errEdgeDischarged(v); !ok {
-				r.bad(key, c.ipos(dom), "the error of the glob expansion is not propagated: "+why)
-				continue
-			}
+		if okErr {
+			r.ok(key, c.ipos(dom), "glob expansion dominates the run loop and its error is propagated")
+		} else {
+			r.bad(key, c.ipos(dom), "the error of the glob expansion is not propagated: "+why)
 		}
-		r.ok(key, c.ipos(dom), "glob expansion dominates the run loop and its error is propagated")
 	}
 	return r
 }
@@ -1837,70 +1838,77 @@ func ruleCP11(c *Ctx) *rule {
 	for _, d := range rl.D {
 		isD[d] = true
 	}
-	// start on the Ok()==false edges of X's own result
-	type st struct {
-		b, prev *ssa.BasicBlock
-		s       bool
-	}
+	// one search from X: once the 'a command failed' edge of X's own result is taken, a restore followed by a persist is owed
 	bad := ""
 	var badPath []string
 	starts := 0
-	for _, b := range rl.fn.Blocks {
-		if !rl.inLoop(b.Instrs[0]) {
-			continue
+	seen := map[string]bool{}
+	var dfs func(b *ssa.BasicBlock, from int, failed, s bool, ps *pathState, path []string)
+	dfs = func(b *ssa.BasicBlock, from int, failed, s bool, ps *pathState, path []string) {
+		if bad != "" {
+			return
 		}
-		if _, ok := lastInstr(b).(*ssa.If); !ok {
-			continue
+		if from == 0 {
+			k := fmt.Sprintf("%d|%v|%v|%s", b.Index, failed, s, ps.key())
+			if seen[k] {
+				return
+			}
+			seen[k] = true
 		}
-		for _, pred := range append([]*ssa.BasicBlock{nil}, b.Preds...) {
-			for i := range b.Succs {
-				cond, pol, feasible := branchCond(b, pred, i)
-				if !feasible || cond == nil {
-					continue
+		path = append(path, fmt.Sprintf("block %d (%s)", b.Index, c.bpos(b)))
+		for _, in := range b.Instrs[from:] {
+			if !failed {
+				continue
+			}
+			if isR[in] {
+				s = true
+			}
+			if isD[in] && s {
+				return
+			}
+			if ret, ok := in.(*ssa.Return); ok {
+				if ev := returnedErr(ret); ev != nil && !mayBeNil(ps.resolve(ev), map[ssa.Value]bool{}) {
+					return // an error ends the run: nothing more can be demanded
 				}
-				own, ok := rl.okTest(cond)
-				if !ok || !own || pol {
-					continue
-				}
-				starts++
-				seen := map[st]bool{}
-				var dfs func(blk, prev *ssa.BasicBlock, s bool, path []string)
-				dfs = func(blk, prev *ssa.BasicBlock, s bool, path []string) {
-					if bad != "" || seen[st{blk, prev, s}] {
-						return
-					}
-					seen[st{blk, prev, s}] = true
-					path = append(path, fmt.Sprintf("block %d (%s)", blk.Index, c.bpos(blk)))
-					for _, in := range blk.Instrs {
-						if isR[in] {
-							s = true
-						}
-						if isD[in] && s {
-							return
-						}
-						if ret, ok := in.(*ssa.Return); ok {
-							if ev := returnedErr(ret); ev != nil && !isNilConst(ev) {
-								return // an error ends the run: nothing more can be demanded
-							}
-							bad, badPath = "the run returns without restoring the previous digest", path
-							return
-						}
-					}
-					for j, nx := range blk.Succs {
-						if _, _, f := branchCond(blk, prev, j); !f {
-							continue
-						}
-						if rl.loop != nil && nx == rl.loop.header {
-							bad, badPath = "the iteration ends after a failed run without writing the previous digest back and persisting it", path
-							return
-						}
-						dfs(nx, blk, s, path)
-					}
-				}
-				dfs(b.Succs[i], b, false, []string{fmt.Sprintf("block %d (%s) [commands failed]", b.Index, c.bpos(b))})
+				bad, badPath = "the run returns without restoring the previous digest", path
+				return
 			}
 		}
+		for i, nx := range b.Succs {
+			cond, pol, next, feasible := ps.branch(b, i)
+			if !feasible {
+				continue
+			}
+			nfailed := failed
+			if cond != nil && !failed {
+				if own, ok := rl.okTest(cond); ok && own && !pol {
+					nfailed = true
+					starts++
+					path = append(path, "[commands failed]")
+				}
+			}
+			if rl.loop != nil && (nx == rl.loop.header && rl.loop.body[b] || !rl.loop.body[nx]) {
+				if nfailed {
+					if _, isRet := lastInstr(nx).(*ssa.Return); isRet && !rl.loop.body[nx] {
+						// leaving the loop towards a return: judged at the return
+						dfs(nx, 0, nfailed, s, next.enter(nx, b), path)
+						continue
+					}
+					bad, badPath = "the iteration ends after a failed run without writing the previous digest back and persisting it", path
+					return
+				}
+				continue
+			}
+			dfs(nx, 0, nfailed, s, next.enter(nx, b), path)
+		}
 	}
+	idx := 0
+	for i, in := range rl.X.Block().Instrs {
+		if in == ssa.Instruction(rl.X) {
+			idx = i + 1
+		}
+	}
+	dfs(rl.X.Block(), idx, false, false, newPathState(), nil)
 	switch {
 	case starts == 0:
 		r.bad(key, c.ipos(rl.X), "the recorded digest is invalidated before the commands but the outcome of the commands (Ok()) is never tested: a failure can never restore it")
@@ -1932,35 +1940,43 @@ func ruleCP12(c *Ctx) *rule {
 		key := fname(f) + " writes-memory-map"
 		var probs []string
 		nWrite := 0
-		for _, m := range c.mutatingSites() {
-			if m.fn != f {
-				continue
-			}
-			nWrite++
-			if m.callee != "os.WriteFile" {
-				probs = append(probs, "persists with "+m.callee+" rather than a single os.WriteFile")
-				continue
-			}
-			data := m.site.Common().Args[1]
-			okData := false
+		isMarshalOfMap := func(data ssa.Value) bool {
 			for _, o := range origins(data) {
 				if ex, ok := o.(*ssa.Extract); ok && ex.Index == 0 {
 					if call, ok := ex.Tuple.(*ssa.Call); ok && (calleeName(call.Common()) == "encoding/json.Marshal" || calleeName(call.Common()) == "encoding/json.MarshalIndent") {
-						arg := call.Common().Args[0]
-						for _, ao := range origins(arg) {
+						for _, ao := range origins(call.Common().Args[0]) {
 							if isCacheMapLoad(ao, mapKey) {
-								okData = true
+								return true
 							}
 						}
 					}
 				}
 			}
-			if !okData {
-				probs = append(probs, "the bytes written are not json.Marshal of the cache's own map field")
+			return false
+		}
+		for _, m := range c.mutatingSites() {
+			if m.fn != f {
+				continue
+			}
+			switch m.callee {
+			case "os.WriteFile":
+				nWrite++
+				if !isMarshalOfMap(m.site.Common().Args[1]) {
+					probs = append(probs, "the bytes written are not json.Marshal of the cache's own map field")
+				}
+			case "(*os.File).Write":
+				nWrite++
+				if !isMarshalOfMap(m.site.Common().Args[1]) {
+					probs = append(probs, "the bytes written are not json.Marshal of the cache's own map field")
+				}
+			case "os.Rename", "os.CreateTemp", "os.Remove", "(*os.File).Sync", "os.OpenFile", "os.Create", "os.MkdirAll", "(*os.File).Chmod", "os.Chmod":
+				// write-to-temporary-then-rename and friends: still a write of the same bytes
+			default:
+				probs = append(probs, "persists with "+m.callee)
 			}
 		}
 		if nWrite == 0 {
-			probs = append(probs, "no direct os.WriteFile in the persisting function")
+			probs = append(probs, "no write of the encoded map in the persisting function")
 		}
 		for _, site := range callSites(f) {
 			n := calleeName(site.Common())
@@ -2088,6 +2104,15 @@ func ruleAB1(c *Ctx) *rule {
 				}
 			}
 			if !isAbs {
+				continue
+			}
+			// same function (the settling helper was inlined): the store dominates the load of the spokfile
+			if f == site.Parent() {
+				if before(st, site) {
+					okAbs = true
+				} else {
+					why = "Options.Spokfile is not made absolute on every path to file.New"
+				}
 				continue
 			}
 			// st executes on every non-error return of f, and no later store follows
